@@ -24,7 +24,8 @@ Inductive rerr :=
 | EListMissing     (* "list missing hash for %q" *)
 | EHashMismatch    (* "hash check failed for %q" *)
 | EFileMissing     (* "file missing for %q" *)
-| EGzipTrailer.    (* concludeGzipRead: checksum error or trailing bytes *)
+| EGzipTrailer     (* concludeGzipRead: checksum error or trailing bytes *)
+| ENotInArchive.   (* "file %q is not in the archive": hashes matched but a hashed file never appeared *)
 
 Inductive result (A : Type) := Ok (a : A) | Err (e : rerr).
 Arguments Ok {A} a.
@@ -61,8 +62,10 @@ Section Archive.
       Member n_sums (print_sums (sums_lines ord m s)) true ].
 
   (* ---- read ---- *)
-  Record acc := Acc { a_meta : bytes; a_state : bytes; a_sums : bytes; a_md : Meta }.
-  Definition acc0 : acc := Acc [] [] [] meta0.
+  (* [a_seen_meta] / [a_seen_state]: the member appeared in the archive (the `found` map) *)
+  Record acc := Acc { a_meta : bytes; a_state : bytes; a_sums : bytes; a_md : Meta;
+                      a_seen_meta : bool; a_seen_state : bool }.
+  Definition acc0 : acc := Acc [] [] [] meta0 false false.
 
   Fixpoint read_members (ms : list member) (a : acc) : result acc :=
     match ms with
@@ -72,14 +75,14 @@ Section Archive.
         if negb (m_intact mb) then Err EReadMeta else
         match dec_meta (a_md a) (m_data mb) with
         | None => Err EDecodeMeta
-        | Some md => read_members rest (Acc (a_meta a ++ m_data mb) (a_state a) (a_sums a) md)
+        | Some md => read_members rest (Acc (a_meta a ++ m_data mb) (a_state a) (a_sums a) md true (a_seen_state a))
         end
       else if String.eqb (m_name mb) n_state then
         if negb (m_intact mb) then Err EReadState else
-        read_members rest (Acc (a_meta a) (a_state a ++ m_data mb) (a_sums a) (a_md a))
+        read_members rest (Acc (a_meta a) (a_state a ++ m_data mb) (a_sums a) (a_md a) (a_seen_meta a) true)
       else if String.eqb (m_name mb) n_sums then
         if negb (m_intact mb) then Err EReadSums else
-        read_members rest (Acc (a_meta a) (a_state a) (a_sums a ++ m_data mb) (a_md a))
+        read_members rest (Acc (a_meta a) (a_state a) (a_sums a ++ m_data mb) (a_md a) (a_seen_meta a) (a_seen_state a))
       else Err EUnexpected
     end.
 
@@ -118,7 +121,7 @@ Section Archive.
       if negb term then Err EFraming else
       match decode_and_verify a with
       | Err e => Err e
-      | Ok _ => Ok (a_md a, a_state a)
+      | Ok _ => if a_seen_meta a && a_seen_state a then Ok (a_md a, a_state a) else Err ENotInArchive
       end
     end.
 
